@@ -36,12 +36,21 @@ def _sel_attr(family):
 
 
 class _Opt:
-    def __init__(self, lr):
+    """optimiser stub.  Like Adam, it may RE-COMPUTE its learning rate inside the step (lr_after): the proximal threshold must use
+    the rate the optimiser has after `update_params`, i.e. the one the step was actually made with."""
+
+    def __init__(self, lr, lr_after=None):
         self.learning_rate = lr
+        self.lr_after = lr_after
         self.calls = []
 
-    def update_params(self, params, grads):
+    def _step(self):
         self.calls.append("update")
+        if self.lr_after is not None:
+            self.learning_rate = self.lr_after
+
+    def update_params(self, params, grads):
+        self._step()
 
 
 class _OptMove(_Opt):
@@ -52,7 +61,7 @@ class _OptMove(_Opt):
         self.names, self.make, self.after = names, make, after
 
     def update_params(self, params, grads):
-        self.calls.append("update")
+        self._step()
         for nm, w in zip(self.names, params):
             new = self.make(nm.rstrip("_") + "n", w.shape)
             for idx in np.ndindex(w.shape):
@@ -187,8 +196,9 @@ def job_wiring(family, shape, groups=None, max_paths=6000, timeout_q=10.0, reviv
                         for idx in range(getattr(mdl, nm).shape[1]):
                             getattr(mdl, nm)[j, idx] = K(0)
             opt = _OptMove(core.var("lr", "+"), [nm for nm, _ in params], cm._sym_make, after=(lambda: (box.__setitem__("post", _snap(mdl)), scope(mdl) if b == "smlp" else None)))
+            opt.lr_after = core.var("lr_after", "+")
         else:
-            opt = _Opt(core.var("lr", "+"))
+            opt = _Opt(core.var("lr", "+"), lr_after=core.var("lr_after", "+"))
         mdl.optimiser_ = opt
         box.update(mdl=mdl, opt=opt)
         return mdl
@@ -368,7 +378,8 @@ def replay(rep, verbose=False):
                 mdl.M = M
             mdl.groups_ = rep.get("groups")
             mdl.learning_rate = 0.123           # the constructor value must not be what is used
-            mdl.optimiser_ = _Opt(lr)
+            lr_after = (float(model["lr_after"]) if attempt == 0 and float(model.get("lr_after", 0)) > 0 else 0.37 * lr)
+            mdl.optimiser_ = _Opt(lr, lr_after=lr_after)
             if rep.get("revive"):
                 mdl.dynamic = bool(rep.get("dynamic"))
                 for j in rep["revive"]:
@@ -381,6 +392,7 @@ def replay(rep, verbose=False):
                     a = cm._float_make(model)(name, shp)
                     return a + rng2.normal(size=shp) * (a == 0)
                 mdl.optimiser_ = _OptMove(lr, [nm for nm, _ in params], make)
+                mdl.optimiser_.lr_after = lr_after
             pre = {nm: np.array(getattr(mdl, nm), copy=True) for nm in ("W_", "W_skip_", "W1_") if hasattr(mdl, nm)}
             ws = mdl._get_weights()
             with np.errstate(all="ignore"):
@@ -389,7 +401,7 @@ def replay(rep, verbose=False):
                     opt = mdl.optimiser_
                     opt.after = lambda: pre.update({nm: np.array(getattr(mdl, nm), copy=True) for nm in pre})
                 mdl._update_weights(ws, [np.zeros(w.shape) for w in ws])
-                thr = alpha * lr
+                thr = alpha * mdl.optimiser_.learning_rate      # the rate the optimiser holds AFTER its step
                 if cm.BASE[family] == "smlp":
                     if np.any(np.linalg.norm(pre["W_skip_"], axis=1) == 0):
                         continue
